@@ -426,6 +426,7 @@ def check_antisym(ctx, rep, rule='O-antisym-event'):
         rows.append((conds, ret))
     n = 0
     bad_anti, bad_prio, residue = [], [], 0
+    bad_loop = []
     try:
         for sx, sy in itertools.product((-1, 0, 1), repeat=2):
             for la, lb, ha, hb, sa, sb in itertools.product((False, True), repeat=6):
@@ -439,6 +440,10 @@ def check_antisym(ctx, rep, rule='O-antisym-event'):
                     exp = oracle_cmp(g)
                     if exp is None:
                         residue += 1
+                        # no order is promised here, but the re-sorting loop of order_events swaps neighbours while `a < b`:
+                        # a pair that is Less in both directions is swapped for ever
+                        if ab == 'Less' and ba == 'Less':
+                            bad_loop.append(g.key())
                         continue
                     if ab == ba:
                         bad_anti.append((g.key(), ab))
@@ -456,6 +461,10 @@ def check_antisym(ctx, rep, rule='O-antisym-event'):
     for (k, v, e) in bad_prio[:6]:
         rep.ob(rule, 'priority:' + k, False, 'cmp(a,b) = %s for %s; the stated priority (x, y, right-before-left, angular, subject first) gives %s'
                % (v, k, e), loc=b.loc(b.j['line_lo']), reason='table-row', expected=e, found=v)
+    rep.ob(rule, 'residue-never-less-both-ways', not bad_loop,
+           'in the documented residue (same point, same kind, collinear or no other event, same operand) cmp(a,b) and cmp(b,a) are both Less for %s: '
+           'the bubble sort of order_events (swap while result_events[i-1] < result_events[i]) never terminates on such a pair'
+           % bad_loop[:3], loc=b.loc(b.j['line_lo']), reason='table-row')
     rep.ob(rule, 'antisymmetric-outside-residue', not bad_anti, '%d configurations violate antisymmetry' % len(bad_anti), reason='table-row')
     rep.ob(rule, 'priority-order', not bad_prio, '%d configurations deviate from the stated priority' % len(bad_prio), reason='table-row')
     rep.floor(rule, 'configurations evaluated', n, 1000)
@@ -569,6 +578,82 @@ def _index_of(v, direct=False):
     return (frozenset(d.items()), c)
 
 
+def _check_bubble_flag(rep, rule, b, ps):
+    """the passes are repeated until one of them swaps nothing: a flag that is reset at the start of every pass, flipped exactly by
+    the swapping iterations, makes the first pass unconditional and ends the loop only in its reset state"""
+    def flag_eval(v, loc, val):
+        x = strip_upd(v)
+        if sym.is_const(x) and isinstance(x[1], bool):
+            return x[1]
+        if x[0] == 'op' and x[1] == 'not':
+            r = flag_eval(x[2], loc, val)
+            return None if r is None else (not r)
+        if x[0] == 'havoc' and x[2] == loc:
+            return val
+        return None
+
+    # inner header: the loop whose iterations compare neighbours; outer header: the loop head seen before it on those paths
+    inner = outer = None
+    for p in ps:
+        if p.end == 'backedge' and any(e['callee'].endswith('::swap') for e in p.calls()):
+            heads = [e for e in p.events if e['k'] == 'loophead' and e.get('depth', 0) == 0]
+            if len(heads) >= 2 and heads[-1]['bb'] == p.end_info:
+                inner, outer = heads[-1], heads[-2]
+    if inner is None:
+        rep.ob(rule, 'bubble-repeat-until-no-swap', False, 'cannot find the pass loop inside a repeat loop in order_events',
+               loc=b.loc(b.j['line_lo']), reason='cannot-tabulate')
+        return
+    def final_of(p, l):
+        for k, v in p.final.mem.items():
+            if k[0][0] == 'loc' and k[0][2] == l and k[1] == ():
+                return strip_upd(v)
+        return None
+
+    inner_paths = [p for p in ps if p.end == 'backedge' and p.end_info == inner['bb']]
+    swap_paths = [p for p in inner_paths if any(e['callee'].endswith('::swap') for e in p.calls())]
+    cands = []
+    for l, v in inner.get('pre', {}).items():
+        v = strip_upd(v)
+        if sym.is_const(v) and isinstance(v[1], bool) and swap_paths and \
+                all(final_of(p, l) is not None and sym.is_const(final_of(p, l)) and final_of(p, l)[1] == (not v[1]) for p in swap_paths):
+            cands.append(l)
+    why = []
+    if len(cands) != 1:
+        why.append('no single boolean that is reset at the start of every pass and flipped by the swapping iterations (candidates: %s)' % cands)
+    else:
+        F = cands[0]
+        v_pass = strip_upd(inner['pre'][F])[1]
+        first = strip_upd(outer.get('pre', {}).get(F, ('c', None)))
+        first_known = sym.is_const(first) and isinstance(first[1], bool)
+        if first_known and first[1] == v_pass:
+            why.append('the flag already has its "nothing swapped" value before the first pass, so no pass is made')
+        for p in inner_paths:
+            fin = final_of(p, F)
+            if p not in swap_paths and not (fin is not None and fin[0] == 'havoc' and fin[2] == F):
+                why.append('an iteration that does not swap changes the flag')
+        # the decisions taken on the flag: (flag value, another pass follows)
+        dec = set()
+        for p in ps:
+            evs = p.events
+            for i, e in enumerate(evs):
+                if e['k'] != 'branch' or e.get('depth', 0) != 0 or e['cond'][0] != 'eq':
+                    continue
+                vals = [val for val in (True, False) if flag_eval(e['val'], F, val) is not None and flag_eval(e['val'], F, val) == bool(e['cond'][1])]
+                if len(vals) != 1:
+                    continue
+                again = any(x['k'] == 'loophead' and x['bb'] == inner['bb'] for x in evs[i:]) or (p.end == 'backedge' and p.end_info == outer['bb'])
+                before_first_pass = not any(x['k'] == 'loophead' and x['bb'] == inner['bb'] for x in evs[:i])
+                if before_first_pass and not first_known:
+                    why.append('the flag is tested before the first pass without having a known value')
+                dec.add((vals[0], again))
+        want = {(not v_pass, True), (v_pass, False)}
+        if dec != want:
+            why.append('the repeat loop must go on exactly when the last pass swapped something; (flag value, another pass) pairs found: %s' % sorted(dec))
+    rep.ob(rule, 'bubble-repeat-until-no-swap', not why,
+           'order_events must repeat the pass until a pass swaps nothing: %s' % '; '.join(sorted(set(why))[:3]), loc=b.loc(b.j['line_lo']),
+           reason='dominance')
+
+
 def check_order_events(ctx, rep, rule='O-consumers'):
     """order_events must bring result_events into sweep order using the full event order (Ord of Rc<SweepEvent>, reversed):
     either the bubble sort that swaps neighbours exactly when result_events[i-1] < result_events[i], or a std sort whose
@@ -647,6 +732,8 @@ def check_order_events(ctx, rep, rule='O-consumers'):
         rep.ob(rule, 'bubble-swap-iff-out-of-order:%s' % (ltc if not isinstance(ltc, tuple) else 'other'), ok,
                'order_events must swap result_events[i-1], result_events[i] exactly when result_events[i-1] < result_events[i] '
                '(later-before-earlier in the reversed order); test=%s, swaps=%d' % (ltc, len(swaps)), loc=b.loc(b.j['line_lo']), reason='table-row')
+    if 'pass' in seen and not sort_calls:
+        _check_bubble_flag(rep, rule, b, ps)
     if sort_calls:
         e = sort_calls[0]
         name = short(e['callee']).split('::')[-1]
@@ -806,11 +893,14 @@ def _seg_eval(at, val):
             raise ValueError('coordinate comparison %s %s' % (a[2], op))
         if a[0] == 'contour_id' and b[0] == 'contour_id':
             first_old = a[1] == 'OLD'
+            if a[1] == b[1]:
+                raise ValueError('contour id of %s compared with itself' % a[1])
             if op == 'lt':
                 return val['cid_lt'] if first_old else not val['cid_lt']
             raise ValueError('contour id comparison %s' % op)
         if a[0] == 'is_subject' and b[0] == 'is_subject' and op in ('eq', 'ne'):
-            return val['same_subj'] if op == 'eq' else not val['same_subj']
+            same = True if a[1] == b[1] else val['same_subj']       # an event compared with itself is its own operand
+            return same if op == 'eq' else not same
         x, y = _seg_eval(a, val), _seg_eval(b, val)
         return {'eq': x == y, 'ne': x != y, 'lt': x < y, 'gt': x > y, 'le': x <= y, 'ge': x >= y,
                 'bitor': bool(x) or bool(y), 'bitand': bool(x) and bool(y), 'bitxor': bool(x) != bool(y)}[op]
